@@ -6,6 +6,8 @@ import (
 	"encoding/json"
 	"fmt"
 	"os"
+	"os/exec"
+	"path/filepath"
 	"sort"
 
 	"verif/mc/rt"
@@ -17,6 +19,9 @@ type check struct {
 }
 
 var checks = map[string]check{}
+
+// subcommands are internal entry points (workers of instrumented builds).
+var subcommands = map[string]func(args []string){}
 
 func register(id string, run func(r *rt.Run), eval func(c *rt.Case) (bool, string, string, error)) {
 	checks[id] = check{run, eval}
@@ -46,7 +51,31 @@ func main() {
 		fmt.Fprintln(os.Stderr, "usage: verif <C01..C19> | replay <file> | selftest")
 		os.Exit(2)
 	}
+	if fn, ok := subcommands[os.Args[1]]; ok {
+		fn(os.Args[2:])
+		return
+	}
 	switch os.Args[1] {
+	case "warm":
+		// build-cache warm-up for the instrumented and the -race builds
+		r := rt.NewRun("warm")
+		scratch, _, err := instrBuild(r)
+		if err == nil {
+			cmd := exec.Command("go", "build", "-race", "-o", filepath.Join(scratch, "verif-race"), "./cmd/verif")
+			cmd.Dir = filepath.Join(rt.Root, "mc")
+			if out, e := cmd.CombinedOutput(); e != nil {
+				err = fmt.Errorf("%v: %s", e, out)
+			}
+		}
+		if scratch != "" {
+			os.RemoveAll(scratch)
+		}
+		if err != nil {
+			fmt.Fprintln(os.Stderr, "warm-up failed:", err)
+			os.Exit(1)
+		}
+		fmt.Println("instrumented and race builds warmed")
+		return
 	case "mkknown":
 		mkknown()
 		return
